@@ -275,3 +275,55 @@ def t_deleverage_limit(world):
 _t12d = tasks
 def tasks(tier):
     return _t12d(tier) + [('deleverage_limit', t_deleverage_limit)]
+
+
+# ---------------------------------------------------------------- C12.d (kernel): the group's daily deleverage withdrawal window
+def t_withdraw_window(world):
+    eng = world.engine(merge=False)
+    f = world.fn(r'marginfi_group\.rs[^>]*>::update_withdrawn_equity$|MarginfiGroupImpl for [^>]*>::update_withdrawn_equity$')
+    ob = Ob('C12.d.window', 'update_withdrawn_equity: the window resets only after >= 24h since the last reset; EVERY call adds floor(value) (saturating) to the amount withdrawn in the current window, '
+            'including the call that rolls the window over; Ok with a non-zero limit => withdrawn_today <= daily_limit; Err only when the limit would be exceeded; the limit itself is never written',
+            [f.name], 'loop-free; every path; all i64 timestamps, all u32 counters; withdrawn value in [0, 2^32) dollars (above that `to_num::<u32>` wraps in the on-chain profile: reported as an event, outside the claim)')
+    g = eng.ex.fresh('&mut MarginfiGroup', 'grp'); x = eng.ex.fresh(I80, 'x'); now = eng.ex.fresh('i64', 'now')
+    res = eng.run_fn(f, [g, x, now]); ob.paths = len(res)
+    day = eng.const_val(None, 'marginfi_type_crate::constants::DAILY_RESET_INTERVAL')
+    if not isinstance(day, IntV) or z3.simplify(day.e).as_long() != 86400: ob.fail('DAILY_RESET_INTERVAL is not 86400 in the type crate MIR'); return [ob]
+    lim0 = fsym('grp*', 'MarginfiGroup', 'deleverage_withdraw_window_cache.daily_limit'); wt0 = fsym('grp*', 'MarginfiGroup', 'deleverage_withdraw_window_cache.withdrawn_today')
+    lr0 = fsym('grp*', 'MarginfiGroup', 'deleverage_withdraw_window_cache.last_daily_reset_timestamp')
+    X = x.e; N = now.e
+    dom = [X >= 0, X < (1 << 32) * W]
+    diff = N - lr0
+    sat = z3.If(diff > 2**63 - 1, 2**63 - 1, z3.If(diff < -2**63, -2**63, diff))
+    reset = sat >= 86400
+    total = z3.If(reset, 0, wt0) + X / W
+    new_wt = z3.If(total > 2**32 - 1, 2**32 - 1, total)
+    for variant, kind in ((0, 'Ok'), (1, 'Err')):
+        for r, c in ok_paths(res, variant):
+            h = dom + [c]
+            if ob.witness(eng, r, h) is False: continue
+            g1 = r['roots'][0]
+            wt1 = ev(fget(eng, g1, 'MarginfiGroup', 'deleverage_withdraw_window_cache.withdrawn_today'))
+            lr1 = ev(fget(eng, g1, 'MarginfiGroup', 'deleverage_withdraw_window_cache.last_daily_reset_timestamp'))
+            lim1 = ev(fget(eng, g1, 'MarginfiGroup', 'deleverage_withdraw_window_cache.daily_limit'))
+            ob.prove(eng, r, h, lim1 == lim0, f'{kind}: the daily limit is not written', role='limit-written')
+            if variant == 0:
+                ob.prove(eng, r, h, wt1 == new_wt, 'withdrawn_today\' = (0 if the window rolled over else withdrawn_today) + floor(value), saturating at u32::MAX', role='window-accounting')
+                ob.prove(eng, r, h, lr1 == z3.If(reset, N, lr0), 'the window start moves (to now) only when >= 24h have passed since the last reset', role='window-reset')
+                ob.prove(eng, r, h + [lim0 != 0], wt1 <= lim0, 'Ok with a limit => the amount withdrawn in the window stays within the limit', role='window-limit')
+            else:
+                ob.prove(eng, r, h, z3.And(lim0 != 0, new_wt > lim0), 'rejected only when the window total would exceed a non-zero limit', role='window-reject')
+    ob.need_witness()
+    return [ob]
+
+
+_t_ww = tasks
+def tasks(tier):
+    return _t_ww(tier) + [('withdraw_window', t_withdraw_window)]
+
+
+
+# ---------------------------------------------------------------- shared with C08.b: the Anchor constraint sets of this property's instructions (signer role, has_one = group, vault / PDA bindings)
+_t_shared_structs = tasks
+def tasks(tier):
+    from specs.C08 import shared_struct_tasks
+    return _t_shared_structs(tier) + shared_struct_tasks('C12.r.', ['LendingPoolConfigureBank', 'LendingPoolConfigureBankInterestOnly', 'LendingPoolConfigureBankLimitsOnly', 'LendingPoolConfigureBankEmode', 'LendingPoolCloneEmode', 'LendingPoolSetupEmissions', 'LendingPoolUpdateEmissionsParameters', 'WriteBankMetadata', 'LendingPoolConfigureBankOracle', 'LendingPoolSetFixedOraclePrice', 'LendingAccountPurgeDelevBalance', 'LendingPoolForceTokenlessRepayComplete', 'StartDeleverage', 'EndDeleverage', 'ConfigureDeleverageWithdrawalLimit', 'MarginfiGroupConfigure'])
